@@ -7,6 +7,18 @@
 cap_main = 0;
 /*@ ghost */
 #define ID_LEN (dmsa->len)
+#define ID_C(i) (dmsa->p[i])
+#define ID_ISDIG(c) ((c) >= '0' && (c) <= '9')
+#define ID_ISIND(c) (VERIF_UP(c) == 'D' || (c) == '\'' || (c) == '"' || (c) == ':')
+#define ID_RANK(c) (VERIF_UP(c) == 'D' ? 0 : (c) == '\'' ? 1 : (c) == '"' ? 2 : -1)
+#define ID_ISHEMI(c) (VERIF_UP(c) == 'N' || VERIF_UP(c) == 'S' || VERIF_UP(c) == 'E' || VERIF_UP(c) == 'W')
+#define ID_ISSIGN(c) ((c) == '-' || (c) == '+')
+#define ID_G1 ((int)verif_ghost_idx)
+#define ID_G2 ((int)verif_ghost_idx2)
+#define ID_G3 ((int)verif_ghost_idx3)
+#define ID_IN(i) (0 <= (i) && (i) < ID_LEN)
+/* accepted as a degrees/minutes/seconds string (the alternative is the list of special number names of Utility::nummatch) */
+#define ID_ACCEPTED (!verif_thrown && cap_main)
 /*@ clause pre.string src=call-site */
 __CPROVER_requires(verif_thrown == 0 && dmsa->len >= 0 && dmsa->len < VERIF_STRCAP && __CPROVER_r_ok(dmsa->p, VERIF_STRCAP) && dmsa->p[dmsa->len] == 0)
 /*@ clause frame src=property props=C13,C14 */
@@ -29,3 +41,35 @@ __CPROVER_ensures(ID_LEN != 0 || verif_thrown || *ind == 0)
 /* DMS.hpp: "4:60" and "4:59:60" are illegal: when the string is accepted as degrees/minutes/seconds (cap_main: the point where the
    result flag is stored), the integer parts of minutes and seconds are below 60 and their values do not exceed 60 */
 __CPROVER_ensures(verif_thrown || !cap_main || (cap_ip1 < 60.0 && cap_ip2 < 60.0 && cap_fp1 <= 60.0 && cap_fp2 <= 60.0))
+/*@ clause post.grammar_alphabet src=header props=C10 */
+/* DMS.hpp grammar, stated on the STRING for every position (ghost indices G1 < G2 < G3 are arbitrary): a string accepted as DMS consists
+   of digits, one '.', the component indicators d ' " :, a sign and hemisphere letters only; hemisphere letters only first or last;
+   a sign only first or directly after a leading hemisphere letter ("-N20.5", "1.8e2d" and internal signs are ILLEGAL here) */
+__CPROVER_ensures(!ID_ACCEPTED || !ID_IN(ID_G1) ||
+   ((ID_ISDIG(ID_C(ID_G1)) || ID_C(ID_G1) == '.' || ID_ISIND(ID_C(ID_G1)) || ID_ISSIGN(ID_C(ID_G1)) || ID_ISHEMI(ID_C(ID_G1))) &&
+    (!ID_ISHEMI(ID_C(ID_G1)) || ID_G1 == 0 || ID_G1 == ID_LEN - 1) &&
+    (!ID_ISSIGN(ID_C(ID_G1)) || ID_G1 == 0 || (ID_G1 == 1 && ID_ISHEMI(ID_C(0))))))
+/*@ clause post.grammar_one_point src=header props=C10 */
+/* "The final component may be a decimal fraction but the non-final components must be integers": at most one decimal point, and no
+   component indicator followed by more digits after it ("4d4.5'4\"" is ILLEGAL) */
+__CPROVER_ensures(!ID_ACCEPTED || !(ID_IN(ID_G1) && ID_IN(ID_G2) && ID_G1 < ID_G2 && ID_C(ID_G1) == '.') || ID_C(ID_G2) != '.')
+/*@ clause post.grammar_fraction_last src=header props=C10 */
+__CPROVER_ensures(!ID_ACCEPTED || !(ID_IN(ID_G1) && ID_IN(ID_G2) && ID_IN(ID_G3) && ID_G1 < ID_G2 && ID_G2 < ID_G3 && ID_C(ID_G1) == '.' && ID_ISIND(ID_C(ID_G2))) ||
+                  !ID_ISDIG(ID_C(ID_G3)))
+/*@ clause post.grammar_order src=header props=C10 */
+/* "these components may only be given in this order" (d before ' before "), none repeated ("4d5\"4'" is ILLEGAL) */
+__CPROVER_ensures(!ID_ACCEPTED || !(ID_IN(ID_G1) && ID_IN(ID_G2) && ID_G1 < ID_G2 && ID_RANK(ID_C(ID_G1)) >= 0 && ID_RANK(ID_C(ID_G2)) >= 0) ||
+                  ID_RANK(ID_C(ID_G1)) < ID_RANK(ID_C(ID_G2)))
+/*@ clause post.grammar_colons src=header props=C10 */
+/* "numbers must appear before and after each colon" ("4::5", "4:5:", ":4:5" are ILLEGAL); at most two colons (three components) */
+__CPROVER_ensures(!ID_ACCEPTED || !(ID_IN(ID_G1) && ID_C(ID_G1) == ':') ||
+                  (ID_G1 > 0 && ID_G1 < ID_LEN - 1 && (ID_ISDIG(ID_C(ID_G1 - 1)) || ID_C(ID_G1 - 1) == '.') && (ID_ISDIG(ID_C(ID_G1 + 1)) || ID_C(ID_G1 + 1) == '.')))
+/*@ clause post.grammar_three_components src=header props=C10 */
+__CPROVER_ensures(!ID_ACCEPTED || !(ID_IN(ID_G1) && ID_IN(ID_G2) && ID_IN(ID_G3) && ID_G1 < ID_G2 && ID_G2 < ID_G3 && ID_C(ID_G1) == ':' && ID_C(ID_G2) == ':') ||
+                  ID_C(ID_G3) != ':')
+/*@ clause post.sign src=header props=C10 */
+/* "A single leading sign is permitted ... The result is multiplied by the implied sign of the hemisphere designator (negative for S and W)" */
+__CPROVER_ensures(!ID_ACCEPTED || ID_LEN < 1 ||
+   signbit(__CPROVER_return_value) ==
+     (((VERIF_UP(ID_C(0)) == 'S' || VERIF_UP(ID_C(0)) == 'W' || VERIF_UP(ID_C(ID_LEN - 1)) == 'S' || VERIF_UP(ID_C(ID_LEN - 1)) == 'W') ? 1 : 0) !=
+      ((ID_C(0) == '-' || (ID_ISHEMI(ID_C(0)) && ID_LEN > 1 && ID_C(1) == '-')) ? 1 : 0)))
